@@ -13,7 +13,7 @@ from ..sims import H, canon
 from ._enga import POLICY_CYCLE, order_hash, scn_hash
 
 PROP = "C09"
-HEADLINE = ["spiral_cases", "canonical_cases", "canonical_settling", "canonical_exceeding", "never_settle_cases",
+HEADLINE = ["future_exit_cases", "spiral_cases", "canonical_cases", "canonical_settling", "canonical_exceeding", "never_settle_cases",
             "random_cases", "random_interrupted", "random_completed_with_substeps", "max_substeps_seen"]
 
 PLACEMENTS = {
@@ -204,6 +204,33 @@ def run_slice(job: dict) -> dict:
                         viol({"kind": "wrong_number_of_substeps", "cls": "spiral", "M": M, "A_steps_per_time": dict(per)},
                              scn, sched, tr)
                     res["hashes"].add(H("spiral", M, pname, shift, v, order_hash(tr["events"])) % (1 << 52))
+    # ---- class (vi): the loop is left by an output time in the future (still providing the weak attribute):
+    # the next time step starts from sub-time 0 again, for more time steps than M/N -------------------------------
+    for N in (1, 2, 3):
+        for pname, (pa, pb) in PLACEMENTS.items():
+            for v in range(2):
+                k += 1
+                if k % W != w:
+                    continue
+                M = N + 3
+                n_t = 3 * M
+                scn = canonical(pa, pb, N + 1, M, n_t, None, bool(v), bool(k % 2))
+                for s_ in scn["sims"]:
+                    s_["beh"] = {"seed": 1, "p_self": 0.0, "p_out": 1.0, "L": {"*": N}}
+                scn["sims"][1]["beh"]["future_at_k"] = N - 1       # B's N-th answer is stamped t+1
+                sched = dict(POLICY_CYCLE[k % len(POLICY_CYCLE)])
+                sched["seed"] = H(seed, k) % (1 << 31)
+                tr = run_case(scn, sched)
+                a = Analysis(scn, tr)
+                res["evaluations"] += 1
+                C["future_exit_cases"] += 1
+                for vv in judge(scn, tr, a, M):
+                    viol(dict(vv, cls="future_exit", N=N, placement=pname), scn, sched, tr)
+                times = sorted({st["time"] for st in a.steps["A"]})
+                if tr["outcome"]["kind"] == "ok" and times != list(range(n_t)):
+                    viol({"kind": "time_does_not_advance_normally", "cls": "future_exit", "N": N, "M": M,
+                          "A_times": times[:12]}, scn, sched, tr)
+                res["hashes"].add(H("future_exit", N, pname, v, order_hash(tr["events"])) % (1 << 52))
     # ---- class (iv): generated multi-weak / nested loops with small bounds -----------------
     for i in range(w, job["n_cases"], W):
         prof = dict(PROFILES["sibling" if i % 2 else "core"])
